@@ -32,15 +32,15 @@ ACTIONS = ["Subset", "RemoveRows", "Split", "Intersect", "DropDup", "MergeRenumb
            "RenumberParticles", "RenumberObjects", "Fork"]
 
 
-def cfg(init, depth, mode, *, valseqs="MCValSeqs", dyn=False, sched=False, third=False, nscore=2, minrows=0, maxrows=8, clauses=True):
+def cfg(init, depth, mode, *, valseqs="MCValSeqs", dyn=False, sched=False, third=False, orders="MCOrders", nscore=2, minrows=0, maxrows=8, clauses=True):
     lines = ["SPECIFICATION Spec", "CONSTANTS", " InitPairs <- %s" % init, " ValSeqs <- %s" % valseqs,
-             " DynVals = %s" % ("TRUE" if dyn else "FALSE"), " SplitFields <- MCSplitFields", " Starts <- MCStarts",
+             " DynVals = %s" % ("TRUE" if dyn else "FALSE"), " SplitFields <- MCSplitFields", " Starts <- MCStarts", " Orders <- %s" % orders,
              " NScore = %d" % nscore, " MinRows = %d" % minrows, " ThirdGuard = %s" % ("TRUE" if third else "FALSE"), " MaxRows = %d" % maxrows, " MaxDepth = %d" % depth, " Sched = %s" % ("TRUE" if sched else "FALSE"),
              ' EmitMode = "%s"' % mode, "INVARIANT TypeOK", "INVARIANT C08_Schema"]
     if clauses:
         lines += ["PROPERTY %s" % c for c in CLAUSES]
     if mode == "tr":
-        lines += ["ACTION_CONSTRAINT EmitTR", "VIEW View"]
+        lines += ["ACTION_CONSTRAINT EmitTRSel", "VIEW View"]
     elif mode == "hist":
         lines += ["CONSTRAINT EmitHist"]
     else:
@@ -156,10 +156,16 @@ def apply_op(cm, A, B, op, variant):
             A.drop_duplicates(duplicates_column=KEYCOL[op["f"]], decision_column="score",
                               decision_sort_ascending=bool(op["asc"]))
         return A, None
-    if name == "merge_renumber":
-        return Motl.merge_and_renumber([A, B] if op["order"] == "ab" else [B, A]), None
-    if name == "merge_dropdup":
-        return Motl.merge_and_drop_duplicates([A, B] if op["order"] == "ab" else [B, A]), None
+    if name in ("merge_renumber", "merge_dropdup"):
+        # "a2" / "b2": re-tagged copies of the registers, built from the rows the specification logged with the call
+        pool = {"a": A, "b": B}
+        for nm in ("a2", "b2"):
+            if nm in op["order"]:
+                pool[nm] = Motl(rows_to_df(op[nm]))
+        lst = [pool[nm] for nm in op["order"]]
+        if name == "merge_renumber":
+            return Motl.merge_and_renumber(lst), None
+        return Motl.merge_and_drop_duplicates(lst), None
     if name == "renumber_particles":
         A.renumber_particles()
         return A, None
@@ -176,6 +182,8 @@ def sig_of(op):
     s = {"op": op["name"]}
     if "f" in op:
         s["f"] = op["f"]
+    if "order" in op:
+        s["inputs"] = len(op["order"])
     return s
 
 
@@ -371,8 +379,8 @@ def run(ctx):
         ctx.exhaustive["L1_rows2_depth2"] = True
     if want("tr"):
         init = ctx.pick("Pairs2", "Pairs3Sample")
-        res = ctx.tlc("MC_MotlSet", cfg(init, 1, "tr"), name="transitions", workers=1, env={"MC_SEED": ctx.seed},
-                      coverage=True, require_actions=ACTIONS)
+        res = ctx.tlc("MC_MotlSet", cfg(init, 1, "tr"), name="transitions", workers=1, env={"MC_SEED": ctx.seed, "MC_EMITMOD": ctx.pick(3, 2)},
+                      )
         trs = res.records
         if len(trs) < 1000:
             raise core.MachineryError("only %d transitions emitted" % len(trs))
@@ -381,8 +389,14 @@ def run(ctx):
         if len(names) != 10:
             raise core.MachineryError("coverage hole: operations emitted = %s" % sorted(names))
         budget = ctx.pick(2500, 45000)
+        # deterministic sub-sample by hash of (seed, transition), the budget shared evenly by the operation kinds
         keyed = sorted(trs, key=lambda t: core.stable_hash([ctx.seed, t]))
-        chosen = keyed[:budget]
+        by_kind = {}
+        for t in keyed:
+            k = t["op"]["name"] + (str(len(t["op"]["order"])) if "order" in t["op"] else "")
+            by_kind.setdefault(k, []).append(t)
+        share = max(1, budget // len(by_kind))
+        chosen = [t for k in sorted(by_kind) for t in by_kind[k][:share]]
         ctx.exhaustive["L2_transitions"] = len(chosen) == len(trs)
         ctx.extra["transitions_emitted"] = len(trs)
         ctx.extra["transitions_replayed"] = len(chosen)
